@@ -641,6 +641,11 @@ pub fn script(t: &mut Tape, fam: Fam, extreme: bool) -> Vec<Vec<u8>> {
             if matches!(fam, Fam::Valve | Fam::ValveGoldSrc | Fam::ValveShip | Fam::Ffow | Fam::Gs1 | Fam::Gs3 | Fam::Jc2m) && t.draw(DATA, 3) == 0 {
                 index_games(t, fam, &mut items);
             }
+            if fam == Fam::EcoHttp && t.draw(DATA, 2) == 0 {
+                if let Some(first) = items.first_mut() {
+                    http_games(t, first);
+                }
+            }
             // damage one to three replies
             let dmg = if mode == 0 { 0 } else { 1 + t.draw(DATA, 3) };
             for _ in 0 .. dmg {
@@ -783,6 +788,87 @@ pub fn index_games(t: &mut Tape, fam: Fam, items: &mut Vec<Vec<u8>>) {
         }
         _ => {}
     }
+}
+
+/// Damage to the head of an HTTP response that a byte-level mutation rarely produces: header lines
+/// without colon, repeated or contradictory framing headers, odd numbers, folded lines, a great many or
+/// very long header lines, other line ends, interim responses.
+pub fn http_games(t: &mut Tape, d: &mut Vec<u8>) {
+    let Some(end) = d.windows(4).position(|w| w == b"\r\n\r\n") else { return };
+    let head = String::from_utf8_lossy(&d[.. end]).to_string();
+    let body = d[end + 4 ..].to_vec();
+    let mut lines: Vec<String> = head.split("\r\n").map(str::to_string).collect();
+    let pick_header = |t: &mut Tape, n: usize| 1 + t.draw(DATA, (n.max(2) - 1) as u64) as usize;
+    let mut eol = "\r\n".to_string();
+    for _ in 0 .. 1 + t.draw(DATA, 2) {
+        let n = lines.len();
+        match t.draw(DATA, 14) {
+            0 if n > 1 => {
+                // a header line without colon (name only, or name and value run together)
+                let i = pick_header(t, n);
+                lines[i] = if t.draw(DATA, 2) == 0 { lines[i].split(':').next().unwrap_or("").to_string() } else { lines[i].replace(": ", " ") };
+            }
+            1 if n > 1 => {
+                let i = pick_header(t, n);
+                lines[i] = lines[i].replace(": ", ":");
+            }
+            2 => lines.push(format!("Content-Length: {}", *t.pick(DATA, &["0", "1", "-1", "+5", "5 5", "0x10", "18446744073709551616", "1e3", ""]))),
+            3 => lines.push(format!("Transfer-Encoding: {}", *t.pick(DATA, &["chunked", "identity", "gzip, chunked", "chunked, chunked", "CHUNKED", ""]))),
+            4 => lines.push(format!("Content-Encoding: {}", *t.pick(DATA, &["gzip", "br", "deflate", "gzip, gzip", "identity", "GZIP"]))),
+            5 if n > 1 => {
+                // obsolete line folding
+                let i = pick_header(t, n);
+                lines[i] = lines[i].replace(": ", ":\r\n ");
+            }
+            6 => {
+                let many = *t.pick(DATA, &[50usize, 99, 100, 101, 1000]);
+                for k in 0 .. many {
+                    lines.push(format!("X-H{k}: v"));
+                }
+            }
+            7 => {
+                let long = *t.pick(DATA, &[1000usize, 8191, 8192, 16_384, 60_000]);
+                lines.push(format!("X-Long: {}", "a".repeat(long)));
+            }
+            8 => eol = (*t.pick(DATA, &["\n", "\r", "\n\r", "\r\r\n"])).to_string(),
+            9 => {
+                lines[0] = (*t.pick(DATA, &[
+                    "HTTP/1.1 200",
+                    "HTTP/1.1  200 OK",
+                    "HTTP/2 200 OK",
+                    "HTTP/1.1 2000 OK",
+                    "HTTP/1.1 abc OK",
+                    "HTTP/1.1 -200 OK",
+                    "HTTP/1.1 999 ?",
+                    "ICY 200 OK",
+                    "",
+                    "HTTP/1.1 200 OK\r\n",
+                ]))
+                .to_string();
+            }
+            10 => {
+                // interim responses first
+                let k = 1 + t.draw(DATA, 3);
+                for _ in 0 .. k {
+                    lines.insert(0, String::new());
+                    lines.insert(0, (*t.pick(DATA, &["HTTP/1.1 100 Continue", "HTTP/1.1 102 Processing", "HTTP/1.1 103 Early Hints"])).to_string());
+                }
+            }
+            11 => lines.push(format!("Location: {}", *t.pick(DATA, &["/frontpage", "http://192.0.2.10:3001/frontpage", "http://[::1]:3001/", "//", "http://", "\u{0}", "ftp://x/", "http://192.0.2.10:99999/"]))),
+            12 if n > 1 => {
+                let i = pick_header(t, n);
+                let l = lines[i].clone();
+                lines.push(l);
+            }
+            _ => lines.push(format!("{}: {}", *t.pick(DATA, &["Connection", "Keep-Alive", "Trailer", "Upgrade", "Set-Cookie"]), *t.pick(DATA, &["close", "keep-alive", "timeout=0", "chunked", "h2c", "a=b; Max-Age=-1"]))),
+        }
+    }
+    let mut out = lines.join(&eol).into_bytes();
+    out.extend_from_slice(eol.as_bytes());
+    out.extend_from_slice(eol.as_bytes());
+    out.extend_from_slice(&body);
+    out.truncate(65_507);
+    *d = out;
 }
 
 /// Script-level damage: drop / duplicate / swap replies, or repeat the whole script.
